@@ -100,7 +100,7 @@ fn level_strategy() -> BoxedStrategy<Option<Level>> {
 /// lengths around degree * 1024 * {1,2,3,4} for every degree, plus the general lattice
 fn degree_len(max: usize) -> BoxedStrategy<usize> {
     prop_oneof![
-        3 => (prop::sample::select(vec![1usize, 2, 4, 8, 16, 32]), 1usize..=4, prop::sample::select(vec![-1025i64, -1024, -65, -1, 0, 1, 64, 1023, 1024, 1025]))
+        3 => (crate::gen::select(vec![1usize, 2, 4, 8, 16, 32]), 1usize..=4, crate::gen::select(vec![-1025i64, -1024, -65, -1, 0, 1, 64, 1023, 1024, 1025]))
             .prop_map(move |(d, k, delta)| core::cmp::min(max as i64, core::cmp::max(0, (d * k * 1024) as i64 + delta)) as usize),
         2 => gen::len_lattice(max),
     ]
